@@ -13,7 +13,8 @@ logging.basicConfig(format='%(asctime)s %(message)s', level=logging.INFO)
 
 def read_and_sort_triplets(triplets_path: str) -> pd.DataFrame:
     """Read triplets from a file and sort by the 'Score' column."""
-    triplets = pd.read_csv(triplets_path, sep='\t')
+    # feature names are text: plain names such as `NA`, `null` or `007` must not be parsed as missing values / numbers
+    triplets = pd.read_csv(triplets_path, sep='\t', converters={'FeatureA': str, 'FeatureB': str})
     return triplets.sort_values(by='Score', ascending=False)
 
 
